@@ -14,12 +14,12 @@ Lemma accept_nomination_spec v k s :
   accept_nomination (Some v) k s =
   if nomination_fresh s v then (modify (set_s_last_nom (Some v)) ;; k true) s else k false s.
 Proof.
-  unfold accept_nomination, with_state, nomination_fresh.
-  destruct (s_last_nom s) as [cur|]; [destruct (cur <? v)|]; reflexivity.
+  unfold accept_nomination, with_state, nomination_fresh, shouldAcceptNomination.
+  destruct (s_last_nom s) as [cur|]; cbn; [destruct (cur <? v)|]; reflexivity.
 Qed.
 
 Lemma accept_plain_nomination k s : accept_nomination None k s = k true s.
-Proof. reflexivity. Qed.
+Proof. unfold accept_nomination, with_state, shouldAcceptNomination. reflexivity. Qed.
 
 (* direct formulation: what accept_nomination does to the stored value *)
 Lemma accept_nomination_last_nom v k s :
